@@ -18,6 +18,7 @@ import (
 	"github.com/dave/dst/decorator"
 	"github.com/dave/dst/decorator/resolver/gotypes"
 	"github.com/dave/dst/decorator/resolver/guess"
+	"github.com/dave/dst/dstutil"
 )
 
 const src = `package main
@@ -62,7 +63,23 @@ func main() {
 		panic(err)
 	}
 
-	// what the decorator recorded: identifiers that carry the path "C"
+	// Since fix 7bba6b4 the types-based resolver leaves C.x alone (finding w). Identifiers can
+	// still carry the path "C" - set by hand or by another resolver - and the restorer must then
+	// print them as C.x: collapse every C.x selector into a path-carrying identifier, as the
+	// decorator itself did when this finding was made.
+	dstutil.Apply(f, func(c *dstutil.Cursor) bool {
+		if se, ok := c.Node().(*dst.SelectorExpr); ok {
+			if x, ok := se.X.(*dst.Ident); ok && x.Name == "C" && x.Path == "" {
+				id := &dst.Ident{Name: se.Sel.Name, Path: "C"}
+				id.Decs.Before, id.Decs.After = se.Decs.Before, se.Decs.After
+				c.Replace(id)
+				return false
+			}
+		}
+		return true
+	}, nil)
+
+	// what is recorded now: identifiers that carry the path "C"
 	var carried []string
 	dst.Inspect(f, func(n dst.Node) bool {
 		if id, ok := n.(*dst.Ident); ok && id.Path == "C" {
